@@ -190,7 +190,7 @@ func c20Run(e *c20Env, sc c20Scenario) (fail string, faultHit bool) {
 	var scripted []*c20Conn
 	dest := ""
 	switch sc.Secondary {
-	case "fresh", "stale":
+	case "fresh", "stale", "stale@1", "stale@len-1":
 		dest = e.accept.addr
 	case "reset", "reset-observed":
 		dest = e.reset.addr
@@ -234,8 +234,9 @@ func c20Run(e *c20Env, sc c20Scenario) (fail string, faultHit bool) {
 				localAddress = e.localIP
 			}
 			st, _ := NewTCPClientTransport(dh, dp, localAddress, established)
-			if sc.Secondary == "stale" {
-				staleConn = &c20Conn{name: "stale", failAfter: 0}
+			if strings.HasPrefix(sc.Secondary, "stale") {
+				// (the stale connection takes none, one or all but one byte of the message before it fails)
+				staleConn = &c20Conn{name: "stale", failAfter: max(0, c20FailAfter("fail"+strings.TrimPrefix(sc.Secondary, "stale"), len(e.wires[0])))}
 				scripted = append(scripted, staleConn)
 				st.conn = staleConn
 			}
@@ -281,7 +282,7 @@ func c20Run(e *c20Env, sc c20Scenario) (fail string, faultHit bool) {
 		if primaryAlive {
 			return true
 		}
-		return sc.Secondary == "fresh" || sc.Secondary == "stale"
+		return sc.Secondary == "fresh" || strings.HasPrefix(sc.Secondary, "stale")
 	}
 	delivered := map[int]int{} // message index -> complete copies seen
 	for i := 0; i < sc.Sends; i++ {
@@ -386,7 +387,7 @@ func c20Run(e *c20Env, sc c20Scenario) (fail string, faultHit bool) {
 				return "", faultHit
 			}
 			if working() {
-				return fmt.Sprintf("send %d of [%s] failed with %q although a working path exists (healthy cached connection: %v, destination accepts: %v)", i+1, sc, err, primaryAlive, sc.Secondary == "fresh" || sc.Secondary == "stale"), faultHit
+				return fmt.Sprintf("send %d of [%s] failed with %q although a working path exists (healthy cached connection: %v, destination accepts: %v)", i+1, sc, err, primaryAlive, sc.Secondary == "fresh" || strings.HasPrefix(sc.Secondary, "stale")), faultHit
 			}
 		}
 		delivered[mi] = copies
@@ -440,8 +441,8 @@ func fo2sec(fo *FailOverClientTransport) (*TCPClientTransport, bool) {
 }
 
 func TestC20(t *testing.T) {
-	V.Rule("unit, fault enumeration: cached inbound connection {absent, healthy, failing on write after 0 / 1 / len-1 bytes} x reconnectable path {absent, fresh, stale connection failing once then destination accepts, destination refusing, destination accepting then resetting, the same with the reset observed before the write (connection-established callback waits for it: every write then fails for certain)} x send sequences of 1-3 distinct messages x subject {FailOverClientTransport over TCPClientTransports, TCPBackend (cached connection x destination)} x {no local address configured, a local address configured for outbound connections} enumerated completely; plus rapid-generated sequences of up to 12 sends with faults re-armed between sends (cached connection breaks later; peer drops the reconnectable connection). Plus histories on the table of client transports itself (per-transaction entries towards one accepting destination sharing its reconnectable path, cached connections absent / healthy / failing, final responses removing their entry before the send, the once-a-minute sweep forced): every send succeeds and writes its message exactly once. Scripted net.Conn doubles record every Write; real loopback listeners record every accepted connection's bytes. Oracle: success => some connection received the complete message (not asserted for a resetting destination); a working path (healthy cached connection or accepting destination) => the send must succeed; all writes failed for certain (reset observed) => the send must not report success; refusing destination => error within the call, no hang, no panic; a failed cached connection is never written again; every real connection holds a concatenation of complete messages; no message is written completely twice. non-trivial = scenario in which a write or dial fails and a later attempt exists; distinct by scenario")
-	V.Require("table: send through a per-transaction entry", "a local address is configured for outbound connections", "fault hit", "subject:failover", "subject:tcpbackend", "secondary:refusing", "secondary:reset", "secondary:stale", "primary:fail@len-1")
+	V.Rule("unit, fault enumeration: cached inbound connection {absent, healthy, failing on write after 0 / 1 / len-1 bytes} x reconnectable path {absent, fresh, stale connection failing once - after 0, 1 or all but one byte of the message - then destination accepts, destination refusing, destination accepting then resetting, the same with the reset observed before the write (connection-established callback waits for it: every write then fails for certain)} x send sequences of 1-3 distinct messages x subject {FailOverClientTransport over TCPClientTransports, TCPBackend (cached connection x destination)} x {no local address configured, a local address configured for outbound connections} enumerated completely; plus rapid-generated sequences of up to 12 sends with faults re-armed between sends (cached connection breaks later; peer drops the reconnectable connection). Plus rotations of 1-3 TCP backends (as the proxy holds them) whose destinations accept or refuse, cached connections absent or stale: a dispatch that reports success has written its message completely, once, to one accepting destination; with every destination refusing every dispatch reports an error. Plus histories on the table of client transports itself (per-transaction entries towards one accepting destination sharing its reconnectable path, cached connections absent / healthy / failing, final responses removing their entry before the send, the once-a-minute sweep forced): every send succeeds and writes its message exactly once. Scripted net.Conn doubles record every Write; real loopback listeners record every accepted connection's bytes. Oracle: success => some connection received the complete message (not asserted for a resetting destination); a working path (healthy cached connection or accepting destination) => the send must succeed; all writes failed for certain (reset observed) => the send must not report success; refusing destination => error within the call, no hang, no panic; a failed cached connection is never written again; every real connection holds a concatenation of complete messages; no message is written completely twice. non-trivial = scenario in which a write or dial fails and a later attempt exists; distinct by scenario")
+	V.Require("rotation of tcp backends, all refusing", "stale connection fails after taking part of the message", "table: send through a per-transaction entry", "a local address is configured for outbound connections", "fault hit", "subject:failover", "subject:tcpbackend", "secondary:refusing", "secondary:reset", "secondary:stale", "primary:fail@len-1")
 	env, err := newC20Env(210)
 	if err != nil {
 		V.HarnessError(t, "environment: %v", err)
@@ -455,7 +456,7 @@ func TestC20(t *testing.T) {
 	outer:
 		for _, subject := range []string{"failover", "tcpbackend"} {
 			prims := []string{"absent", "healthy", "fail@0", "fail@1", "fail@len-1"}
-			secs := []string{"absent", "fresh", "stale", "refusing", "reset", "reset-observed"}
+			secs := []string{"absent", "fresh", "stale", "stale@1", "stale@len-1", "refusing", "reset", "reset-observed"}
 			if subject == "tcpbackend" {
 				secs = []string{"fresh", "refusing", "reset", "reset-observed"} // the destination
 			}
@@ -473,6 +474,7 @@ func TestC20(t *testing.T) {
 						V.Class("subject:" + subject)
 						V.Class("primary:" + p)
 						V.Class("secondary:" + s)
+						V.ClassIf(strings.HasPrefix(s, "stale@"), "stale connection fails after taking part of the message")
 						V.ClassIf(sc.Local == "addr", "a local address is configured for outbound connections")
 						if hit {
 							V.Class("fault hit")
@@ -491,14 +493,14 @@ func TestC20(t *testing.T) {
 			}
 		}
 		V.Exhaustive(complete && V.only == "")
-		V.Extra("exhaustive_subspace", fmt.Sprintf("%d scenarios: {failover: 5 cached-connection states x 5 reconnectable-path states, tcpbackend: 5 cached-connection states x 4 destinations} x 1-3 sends x local address unset/set", n))
+		V.Extra("exhaustive_subspace", fmt.Sprintf("%d scenarios: {failover: 5 cached-connection states x 8 reconnectable-path states, tcpbackend: 5 cached-connection states x 4 destinations} x 1-3 sends x local address unset/set", n))
 	})
 
 	rcheck(t, "random", V.N(1500, 6000), func(rt *rapid.T) {
 		sc := c20Scenario{Subject: rapid.SampledFrom([]string{"failover", "failover", "tcpbackend"}).Draw(rt, "subject")}
 		sc.Primary = rapid.SampledFrom([]string{"absent", "healthy", "healthy", "fail@0", "fail@1", "fail@len-1"}).Draw(rt, "primary")
 		if sc.Subject == "failover" {
-			sc.Secondary = rapid.SampledFrom([]string{"absent", "fresh", "fresh", "stale", "refusing", "reset", "reset-observed"}).Draw(rt, "secondary")
+			sc.Secondary = rapid.SampledFrom([]string{"absent", "fresh", "fresh", "stale", "stale@1", "stale@len-1", "refusing", "reset", "reset-observed"}).Draw(rt, "secondary")
 		} else {
 			sc.Secondary = rapid.SampledFrom([]string{"fresh", "fresh", "refusing", "reset", "reset-observed"}).Draw(rt, "destination")
 		}
@@ -521,6 +523,109 @@ func TestC20(t *testing.T) {
 		V.SampleEvery(50, func() any { return sc })
 		if fail != "" {
 			failf(rt, "%s", fail)
+		}
+	})
+	// The rotation in front of TCP backends: what a dispatch reports is what
+	// happened on the wire.
+	rcheck(t, "rotation", V.N(300, 3000), func(rt *rapid.T) {
+		k := rapid.IntRange(1, 3).Draw(rt, "backends")
+		rb := NewRoundRobinBackend()
+		accepting := 0
+		var desc []string
+		var tbs []*TCPBackend
+		var stales []*c20Conn
+		defer func() {
+			for _, tb := range tbs {
+				if tb.conn != nil {
+					if tc, ok := tb.conn.(*net.TCPConn); ok {
+						tc.SetLinger(0)
+					}
+					tb.conn.Close()
+				}
+			}
+		}()
+		startA := env.accept.count()
+		for i := 0; i < k; i++ {
+			dest, kind := env.refusing, "refusing"
+			if rapid.IntRange(0, 2).Draw(rt, "destination accepts") == 0 {
+				if accepting == 0 {
+					dest, kind = env.accept.addr, "accepting"
+					accepting++
+				}
+			}
+			// (the rotation keys its members by address: a second refusing member gets a port of its own)
+			if kind == "refusing" && i > 0 {
+				h, _, _ := net.SplitHostPort(env.refusing)
+				dest = fmt.Sprintf("%s:%d", h, 6003+i)
+			}
+			tb, _ := NewTCPBackend(":0", dest, func(net.Conn) {})
+			if rapid.IntRange(0, 2).Draw(rt, "cached connection is stale") == 0 {
+				sc := &c20Conn{name: "cached-stale", failAfter: rapid.SampledFrom([]int{0, 1, 40}).Draw(rt, "stale connection takes bytes")}
+				tb.conn = sc
+				stales = append(stales, sc)
+				kind += "+stale cached connection"
+			}
+			tbs = append(tbs, tb)
+			rb.AddBackend(tb)
+			desc = append(desc, kind)
+		}
+		sends := rapid.IntRange(1, 5).Draw(rt, "dispatches")
+		plan := fmt.Sprintf("rotation of %v, %d dispatches", desc, sends)
+		V.Case(plan)
+		V.ClassIf(accepting == 0, "rotation of tcp backends, all refusing")
+		V.NonTrivial(plan)
+		V.SampleEvery(40, func() any { return plan })
+		okCount := 0
+		for i := 0; i < sends; i++ {
+			done := make(chan error, 1)
+			go func() {
+				defer func() {
+					if r := recover(); r != nil {
+						done <- fmt.Errorf("panic: %v", r)
+					}
+				}()
+				done <- rb.Send(env.msgs[i%len(env.msgs)])
+			}()
+			err, returned := patientRecv(done, 15*time.Second)
+			if !returned {
+				failf(rt, "dispatch %d through a %s did not return within 15 s", i+1, plan)
+			}
+			if err != nil && strings.HasPrefix(err.Error(), "panic:") {
+				failf(rt, "dispatch %d through a %s: %v", i+1, plan, err)
+			}
+			if err == nil {
+				okCount++
+				if accepting == 0 {
+					failf(rt, "dispatch %d through a %s reported success: every destination refuses connections, nothing can have been written", i+1, plan)
+				}
+			}
+		}
+		// every reported success is one complete message at the accepting destination
+		if accepting > 0 {
+			deadline := newPatience(5 * time.Second)
+			for {
+				var all []byte
+				for _, rc := range env.accept.since(startA) {
+					all = append(all, rc.bytes()...)
+				}
+				got := bytes.Count(all, []byte("MESSAGE sip:dest"))
+				complete := 0
+				for i := 0; i < sends; i++ {
+					c := bytes.Count(all, env.wires[i%len(env.msgs)])
+					if c > 1 {
+						failf(rt, "%s: the message of dispatch %d was written %d times to the accepting destination", plan, i+1, c)
+					}
+					complete += c
+				}
+				// (distinct messages: sends <= 5 < len(msgs))
+				if complete >= okCount && got == complete {
+					break
+				}
+				if deadline.spent() {
+					failf(rt, "%s: %d dispatches reported success, the accepting destination holds %d complete messages (%d message starts)", plan, okCount, complete, got)
+				}
+				time.Sleep(20 * time.Millisecond)
+			}
 		}
 	})
 	// The same promises at the level where the proxy keeps its transports: the
